@@ -76,6 +76,7 @@ type Config struct {
 	RacyPoints       map[string]bool // access sites that are scheduling points (2nd pass)
 	NoRace           bool            // disable the race detector (faster)
 	HoldSpawns       bool            // sequential drivers: spawned threads stay pending until released
+	LogSites         bool            // record "op@function" of every scheduling point per thread (see PassedSite)
 	NoExplore        bool            // choice points are not offered to the chooser (always index 0); see SetExploring
 }
 
@@ -97,6 +98,7 @@ type thread struct {
 	site      string
 	spawnSite string
 	recvStash interface{}
+	sites     []string
 }
 
 type timer struct {
@@ -425,8 +427,11 @@ func Point(op string, obj interface{}, enabled func() bool) {
 	}
 	t := w.running
 	t.op, t.obj, t.enabled = op, obj, enabled
-	if w.cfg.Trace || enabled != nil {
+	if w.cfg.Trace || enabled != nil || w.cfg.LogSites {
 		t.site = callerSite(3)
+	}
+	if w.cfg.LogSites {
+		t.sites = append(t.sites, op+"@"+t.site)
 	}
 	w.reschedule(t)
 	t.op, t.obj, t.enabled = "", nil, nil
@@ -902,4 +907,18 @@ func HeldCount(substr string) int {
 		}
 	}
 	return n
+}
+
+// PassedSite reports whether the running thread has passed a scheduling point
+// whose "op@function" contains substr (needs Config.LogSites).
+func PassedSite(substr string) bool {
+	if cur == nil || cur.running == nil {
+		return false
+	}
+	for _, s := range cur.running.sites {
+		if strings.Contains(s, substr) {
+			return true
+		}
+	}
+	return false
 }
